@@ -11,10 +11,22 @@ import (
 
 // C01 — dishonest counterparts.  Every line is one handshake:
 //
+//	(policy may carry +cbok / +cbdeny: an additional verify callback in the server's client policy; the last
+//	word may carry +skip (the client's InsecureSkipVerify) and +cbok / +cbdeny (the client's callback))
 //	hs <xx|ik|ik2|ik3> <policy> <serverAdv> <clientAdv> <listed 0|1|2=listed then revoked> <name|noname>
 //	     (ik2, ik3: hidden mode with 1 or 2 certificates of other virtual hosts ahead of the addressed one)
 //	     -> c=<client ok> h=<handle offered> d=<data flows both ways>
-func main() { Main(map[string]*Suite{"C01": {Gen: gen, Run: run}}) }
+func main() {
+	Main(map[string]*Suite{"C01": {Gen: gen, Run: run},
+		// the callback scenarios alone: what C06's `Verifying` hypothesis rests on (the principal's
+		// approval of the first intent of a connection is an additional verify callback of the
+		// handshake with the target, hopclient/principal.go setupTargetClient)
+		"C01cb": {Gen: func(g *GenCtx) {
+			genCallbacks(g, func(m, p, s, c string, listed int, name string) {
+				g.Op("hs %s %s %s %s %d %s", m, p, s, c, listed, name)
+			})
+		}, Run: run}})
+}
 
 var (
 	modes      = []string{"xx", "ik", "ik2"}
@@ -50,13 +62,33 @@ func gen(g *GenCtx) {
 			}
 		}
 	}
+	genCallbacks(g, emit)
 	n := 40
 	if g.Thorough() {
 		n = 1500 / g.Parts
 	}
 	for i := 0; i < n; i++ {
-		g.Op("hs %s %s %s %s %d %s", Pick(g.R, []string{"xx", "xx", "ik", "ik", "ik2", "ik3"}), Pick(g.R, policies), Pick(g.R, serverAdvs), Pick(g.R, clientAdvs),
-			g.R.Intn(3), Pick(g.R, []string{"name", "name", "noname"}))
+		g.Op("hs %s %s %s %s %d %s", Pick(g.R, []string{"xx", "xx", "ik", "ik", "ik2", "ik3"}), Pick(g.R, policies)+Pick(g.R, []string{"", "", "", "+cbok", "+cbdeny"}), Pick(g.R, serverAdvs), Pick(g.R, clientAdvs),
+			g.R.Intn(3), Pick(g.R, []string{"name", "name", "noname"})+Pick(g.R, []string{"", "", "", "+skip", "+cbok", "+cbdeny", "+skip+cbdeny"}))
+	}
+}
+
+// genCallbacks: additional verify callbacks and the client's InsecureSkipVerify: a callback that refuses
+// ends the handshake whatever the rest of the policy says (also when verification is skipped)
+func genCallbacks(g *GenCtx, emit func(m, p, s, c string, listed int, name string)) {
+	for _, m := range modes {
+		for _, cb := range []string{"+cbok", "+cbdeny"} {
+			for _, p := range policies {
+				emit(m, p+cb, "ok", "ok", 1, "name")
+				emit(m, p+cb, "ok", "selfsigned", 0, "name")
+			}
+			for _, nm := range []string{"name", "name+skip", "noname+skip"} {
+				emit(m, "store", "ok", "ok", 0, nm+cb)
+				emit(m, "store", "selfsigned", "ok", 0, nm+cb)
+			}
+		}
+		emit(m, "store", "selfsigned", "ok", 0, "name+skip")
+		emit(m, "store", "othername", "ok", 0, "name+skip")
 	}
 }
 
@@ -73,7 +105,27 @@ func run(in *bufio.Scanner, out *bufio.Writer) {
 		res := "bad-op"
 		if len(f) == 7 && f[0] == "hs" && (f[1] == "xx" || f[1] == "ik" || f[1] == "ik2" || f[1] == "ik3") && (f[5] == "0" || f[5] == "1" || f[5] == "2") {
 			decoys := map[string]int{"ik2": 1, "ik3": 2}[f[1]]
-			sc := hs.Scenario{Hidden: f[1] != "xx", Decoys: decoys, Policy: f[2], ServerAdv: f[3], ClientAdv: f[4], KeyListed: f[5] == "1", Revoked: f[5] == "2",
+			pol := strings.Split(f[2], "+")
+			nm := strings.Split(f[6], "+")
+			f[2], f[6] = pol[0], nm[0]
+			opt := func(l []string, w string) bool {
+				for _, x := range l[1:] {
+					if x == w {
+						return true
+					}
+				}
+				return false
+			}
+			cbOf := func(l []string) string {
+				switch {
+				case opt(l, "cbok"):
+					return "ok"
+				case opt(l, "cbdeny"):
+					return "deny"
+				}
+				return ""
+			}
+			sc := hs.Scenario{Hidden: f[1] != "xx", Decoys: decoys, ServerCB: cbOf(pol), ClientSkip: opt(nm, "skip"), ClientCB: cbOf(nm), Policy: f[2], ServerAdv: f[3], ClientAdv: f[4], KeyListed: f[5] == "1", Revoked: f[5] == "2",
 				NoName: f[6] == "noname"}
 			res = Guard(func() string {
 				r := hs.Run(sc, nil)
